@@ -47,6 +47,12 @@ CHECKS = {
  "C14": (True, "proptest choice-stream PBT over structured argument regions (axes, both sides of every cut, branch points): differential against independently coded reference formulas, right-inverse round trips, principal-range predicates, identities, real-axis reduction; libFuzzer(thorough)",
          "Every public complex function is evaluated at hundreds of thousands (thorough: millions) of points concentrated on axes, cut neighbourhoods and branch points and judged by definition-level oracles with stated amplification-aware tolerances.",
          "Trusted: real std functions, the reference formulas (Smith division, Kahan sqrt, hypot/atan2 logarithm); tolerance multipliers calibrated with >=100x head-room; signed-zero behaviour exactly on cuts not asserted.", "5/C14"),
+ "C15": (True, "proptest choice-stream PBT: Vec reference model for arithmetic/reductions (all index ranges for n <= 12), model-based edit histories, double-double norm oracle + norm-law metamorphic relations, sequence generators; libFuzzer(thorough)",
+         "Hundreds of thousands of generated vectors and edit histories over rationals, f64, Complex<f64> and Complex<Rat>; exact comparison with a list model after every step, norms against double-double and their laws, linspace/powspace end points and monotonicity.",
+         "Trusted: the Vec model, double-double sums; a few-ulp slack on floating norm laws.", "5/C15"),
+ "C16": (True, "exhaustive (worker count x length) enumeration with the worker count set through the thread's CPU affinity and observed via num_cpus::get(); exact-integer differential oracle, reassociation bound, repeated-execution determinism under load with a moving CPU set; proptest for long random lengths",
+         "All 16 x 201 (workers, length) pairs in every run for exactly summable data (bit-identical to the sequential and to an exact integer dot product), random data within the reassociation bound, and repeated calls on cancellation-prone data under CPU load and changing affinity (bit-identical).",
+         "Trusted: sched_setaffinity/num_cpus behaviour of this kernel; the scheduler is not controlled: repetition samples interleavings but cannot exclude a schedule-dependent result.", "5/C16"),
 }
 NOT_YET = "check not built yet in this revision of /verif (work in progress); the design for it is in DESIGN.md section 5"
 
